@@ -15,8 +15,8 @@ ASSUMPTIONS = [
     "of the harness, validated only through the differential run",
     "bytes AND a close piling up while the io read task is paused (service not ready) are not generated: what "
     "ntex-io's in-memory transport does with them is not modelled",
-    "write back-pressure episodes (states Backpressure, Wr(true)/Wr(false) calls) are proved about the model but "
-    "not generated for the differential run",
+    "write back-pressure is produced with 1100-byte responses against a 1024-byte write-buffer watermark and a peer "
+    "that accepts either nothing or everything",
 ]
 PARTIAL = [
     "actual cancellation of handler tasks, completion of the io shutdown and absence of hangs inside ntex "
